@@ -114,7 +114,7 @@ def run(tier, seed):
         for i in range(0, len(rows), 100):
             part = rows[i:i + 100]
             inp = "\n".join(json.dumps(x, separators=(",", ":")) for x in part) + "\n"
-            p = subprocess.run([vdrive, "c17"], input=inp.encode(), capture_output=True, timeout=3000)
+            p = subprocess.run([vdrive, "c17"], input=inp.encode(), capture_output=True, cwd=common.scratch(), timeout=3000)
             if p.returncode != 0:
                 raise common.Infra(f"vdrive c17 exited {p.returncode}: {p.stderr.decode(errors='replace')[-2000:]}")
             out += [json.loads(l) for l in p.stdout.decode().split("\n") if l.strip()]
@@ -165,7 +165,7 @@ def run(tier, seed):
         logdir = tempfile.mkdtemp(prefix="race-", dir=common.scratch())
         env = dict(os.environ, GOMAXPROCS=str(gmp), GORACE=f"halt_on_error=0 exitcode=0 log_path={logdir}/race")
         inp = "\n".join(json.dumps(x, separators=(",", ":")) for x in stress) + "\n"
-        p = subprocess.run([race, "c17stress"], input=inp.encode(), capture_output=True, timeout=3000, env=env)
+        p = subprocess.run([race, "c17stress"], input=inp.encode(), capture_output=True, cwd=common.scratch(), timeout=3000, env=env)
         events = [json.loads(l) for l in p.stdout.decode().split("\n") if l.strip()]
         reports = []
         for f in os.listdir(logdir):
